@@ -285,6 +285,44 @@ def sampling_step(chk, prog):
             chk.finding("GROUND-TRUTH.yaw", SENS, "Sensors.__init__", "yaw override unit conversion", why, line=stmt.lineno)
 
 
+def rate_alignment(chk, prog):
+    """GROUND-TRUTH.align: QuaternionArray.angular_velocities returns the N-1 rates that take sample t to sample t+1; the gyroscope array has N rows and the
+    filters (and the property's integration) use row t to go from attitude t-1 to attitude t.  The N-1 rates must therefore follow ONE leading row
+    (np.r_[<row>, rates] / np.vstack((<row>, rates))); padding at the end shifts every rate by one sample."""
+    cls = prog.cls(SENS + "::Sensors")
+    n = 0
+    for m in cls.methods.values():
+        defs = {}
+        for s_ in ast.walk(m.node):
+            if isinstance(s_, ast.Assign) and isinstance(s_.targets[0], ast.Name):
+                defs[s_.targets[0].id] = s_.value
+
+        def is_rates(e, depth=0):
+            if isinstance(e, ast.Name) and e.id in defs and depth < 3:
+                return is_rates(defs[e.id], depth + 1)
+            return isinstance(e, ast.Call) and isinstance(e.func, ast.Attribute) and e.func.attr == "angular_velocities" and not (isinstance(e.func.value, ast.Name) and e.func.value.id == "self")
+        for x in ast.walk(m.node):
+            parts = None
+            if isinstance(x, ast.Subscript) and ast.unparse(x.value) in ("np.r_", "numpy.r_") and isinstance(x.slice, ast.Tuple):
+                parts = x.slice.elts
+            elif isinstance(x, ast.Call) and ast.unparse(x.func).split(".")[-1] in ("vstack", "concatenate", "row_stack") and x.args and isinstance(x.args[0], (ast.Tuple, ast.List)):
+                parts = x.args[0].elts
+            if not parts or not any(is_rates(p_) for p_ in parts):
+                continue
+            n += 1
+            site = "%s::%s" % (m.ref, ast.unparse(x)[:60])
+            idx = [i for i, p_ in enumerate(parts) if is_rates(p_)]
+            if len(parts) == 2 and idx == [1]:
+                chk.record("GROUND-TRUTH.align", site, "one leading row, then the N-1 rates: row t takes attitude t-1 to attitude t")
+            else:
+                why = "the N-1 angular velocities are stacked as %s: they must follow exactly one leading row, otherwise gyroscope row t no longer describes the motion from sample t-1 to t " \
+                      "and integrating the gyroscopes runs one sample ahead of (or behind) the ground truth" % ast.unparse(x)[:70]
+                chk.record("GROUND-TRUTH.align", site, "rates follow one leading row", verdict="VIOLATION", detail=why)
+                chk.finding("GROUND-TRUTH.align", SENS, m.qname, "stacking of the angular velocities", why, line=x.lineno)
+    if n < 2:
+        chk.error("GROUND-TRUTH.align: %d stackings of QuaternionArray.angular_velocities found in Sensors, 2 confirmed by hand" % n)
+
+
 def zero_option(chk, prog):
     f = prog.func(SENS + "::Sensors.__init__")
     n = 0
@@ -345,6 +383,7 @@ def run(chk, prog, tier):
     ground_truth(chk, prog)
     zero_option(chk, prog)
     sampling_step(chk, prog)
+    rate_alignment(chk, prog)
     chk.require_count("GENERATE.acc", 4)
     canaries(chk, prog)
     return __doc__
